@@ -38,6 +38,10 @@ def gen(rnd, n):
         mode = MODES[i % len(MODES)]
         args = [rnd.choice(ARGS) for _ in range(rnd.randint(1, 3))]
         items.append((i, mode, args))
+    # @PLACEHOLDER@ substitution in custom-target commands: exactly the known placeholders are replaced, wherever they stand — also
+    # next to other text shaped like a placeholder (an e-mail address, a version suffix) — and nothing else is touched
+    for mode in ('plain', 'env'):          # (capture: and @OUTPUT@ exclude each other)
+        items.append((len(items), mode, ['me@BUILDHOST@OUTPUT@', '@X1@OUTDIR@/f', 'a@OUTPUT@b@ZZ@', '@OUTPUT@@OUTPUT@', 'user@example.com', '@NOTATEMPLATE@', '1.0@RC1@OUTPUT@.tar', '@@OUTPUT@@']))
     # commands that are pickled (an argument contains a newline) and whose argument lists differ only in where the boundaries fall
     for args in (['x\ny', 'z'], ['x\nyz'], ['x\n', 'yz'], ['-D', 'FOO=1\n'], ['-DFOO=1\n']):
         items.append((len(items), 'pickled', args))
@@ -284,7 +288,7 @@ def _argv_chunk(chunk):
                         fails.append({'case': case, 'stage': 'argv-e2e', 'detail': f'{mode}: the program was not started (no argv dump)'})
                         continue
                     got = json.load(open(side))
-                    exp = list(args) if mode == 'test' else [a.replace('\\', '/') for a in args]
+                    exp = list(args) if mode == 'test' else [a.replace('\\', '/').replace('@OUTPUT@', f'o{i}.out').replace('@OUTDIR@', '.') for a in args]
                     if mode == 'env':
                         ev_ = json.load(open(side + '.env')) if os.path.exists(side + '.env') else None
                         if ev_ != {'K': 'v w', 'L': '$y'}:
